@@ -177,7 +177,15 @@ Definition py_pow (a b : pyval) : res pyval :=
       if 0 <=? n then Ok (mkfloat (q_pow x n))
       else if q_is_zero x then Raise ZeroDivisionError
       else Ok (mkfloat (/ q_pow x (- n)))
-  | Some _, Some (NF _) => Raise Unmodelled
+  | Some x, Some (NF q) =>
+      (* a float exponent with an integral value: the result is a float *)
+      let r := Qred q in
+      if Zpos (Qden r) =? 1 then
+        let n := Qnum r in
+        if 0 <=? n then Ok (mkfloat (q_pow (num_q x) n))
+        else if q_is_zero (num_q x) then Raise ZeroDivisionError
+        else Ok (mkfloat (/ q_pow (num_q x) (- n)))
+      else Raise Unmodelled
   | _, _ => Raise TypeError
   end.
 Definition py_neg (a : pyval) : res pyval :=
